@@ -93,13 +93,21 @@ def parse_output(text, harnesses):
         if any(s in ("UNDETERMINED", "ERROR") for _, _, s in r.failed) or "CBMC failed" in body or "Status: ERROR" in body:
             # out of memory / back-end crash: never a verdict
             r.status = "error"
-        pb = re.search(r"Concrete playback unit test for `.*?`:(.*?)(?:^INFO|\Z)", body, flags=re.S | re.M)
-        if pb:
+        # one playback test per satisfied cover AND per failed check: keep the ones that belong to failures
+        blocks = re.split(r"Concrete playback unit test for `.*?`:", body)[1:]
+        chosen = None
+        for blk in blocks:
+            blk = blk.split("```")[1] if "```" in blk else blk
+            is_cover = re.search(r"Check for `cover`", blk) is not None
             vals = []
-            for vm in re.finditer(r"^\s*vec!\[([0-9, ]*)\],?\s*$", pb.group(1), flags=re.M):
+            for vm in re.finditer(r"^\s*vec!\[([0-9, ]*)\],?\s*$", blk, flags=re.M):
                 inner = vm.group(1).strip()
                 vals.append([int(x) for x in inner.split(",") if x.strip()] if inner else [])
-            r.playback = vals
+            if not is_cover and chosen is None:
+                chosen = vals
+            r.playbacks = getattr(r, "playbacks", []) + [(is_cover, vals)]
+        if chosen is not None:
+            r.playback = chosen
         r.raw_tail = body[-1500:]
         res[short] = r
     for h in harnesses:
